@@ -22,6 +22,7 @@ MONITORS = {
     'c11': Mon2.C11Retention, 'c31': Mon2.C31Sequential,
     'rsnap': Mon2.RestartSnap, 'c06': Mon2.C06Hold, 'c08': Mon2.C08Flows,
     'c45': Mon2.C45AbsTriggers, 'c25': Mon2.C25DataStore,
+    'c27': Mon2.C27Reload,
 }
 
 
